@@ -180,6 +180,7 @@ func (m recMetrics) IncTokenValidationFailures(prometheus.Labels)              {
 func (m recMetrics) ObserveHeartbeatDuration(time.Duration, prometheus.Labels) {}
 // ObserveLeaderDuration is called when a term ends, inside the critical section and before the flag is lowered.
 func (m recMetrics) ObserveLeaderDuration(time.Duration, prometheus.Labels) {
+	m.rt.tr.logf("observe %d", m.rt.spec.ID)
 	if f := m.rt.onHook; f != nil {
 		f("observe", int(atomic.AddInt32(&m.rt.observes, 1)))
 	}
@@ -602,6 +603,21 @@ func execStep(tr *Trace, store *RefStore, rts map[int]*instRT, st Step, apiSeq *
 		if c != nil {
 			c()
 		}
+	case "snap":
+		// one Status() call from a goroutine of its own, concurrent with whatever the library is doing
+		if rt == nil {
+			return
+		}
+		wg.Add(1)
+		go func() {
+			defer wg.Done()
+			sn := rt.el.Status()
+			il := 0
+			if sn.IsLeader {
+				il = 1
+			}
+			tr.logf("snap %d %d %d %d %d", st.Inst, stateNum(sn.State), il, tr.id(sn.LeaderID), tr.tok(sn.Token))
+		}()
 	case "cancelstart":
 		// the application cancels the context it passed to Start and starts the election again in the same breath -
 		// before the library's own reaction to the cancellation has had a chance to run
